@@ -270,11 +270,10 @@ def _diagnostic_only(px, attr: str) -> bool:
     return True
 
 
-def rule_state(ctx, px):
-    R = "R-C10-STATE"
+def rule_state(ctx, px, R="R-C10-STATE", why=""):
     ctx.rule(
         R,
-        "every piece of state that outlives one generated file and is written inside the per-file call graph is "
+        why + "every piece of state that outlives one generated file and is written inside the per-file call graph is "
         "(a) re-initialised unconditionally at the per-file entry, (b) a memo whose value is a function of its key, or "
         "(c) never read on a path to emitted text; anything else is a violation naming the attribute and write site",
     )
@@ -324,6 +323,30 @@ def rule_state(ctx, px):
         ctx.ob(R, u.module.rel, "UniqueNameGenerator counters written in UniqueNameGenerator.__call__", ok, f"[reset-per-file] {why}", u.node.lineno)
         n += 1
     ctx.floor(R, n, 4)
+
+
+def counter_filters(px):
+    """names (as templates spell them) of the filters / tests whose implementation reaches the per-file name counters"""
+    out = set()
+    for f in px.all_funcs:
+        if f.outer is not None or f.cls is not None or not (f.name.startswith("filter_") or f.name.startswith("is_") or f.name.startswith("uses_")):
+            continue
+        if not f.module.name.startswith("nunavut.lang."):
+            continue
+        seen, work, touches = set(), [f], False
+        while work and not touches:
+            g = work.pop()
+            if g.qual in seen:
+                continue
+            seen.add(g.qual)
+            for c in ast.walk(g.node):
+                if isinstance(c, ast.Attribute) and isinstance(c.value, ast.Name) and c.value.id == "UniqueNameGenerator":
+                    touches = True
+                if isinstance(c, ast.Call):
+                    work.extend(x for x in px.resolve_call(g, c, by_name_fallback=False) if x.module.name.startswith("nunavut.lang"))
+        if touches:
+            out.add(f.name.split("_", 1)[1])
+    return out
 
 
 def rule_render_time(ctx, px):
@@ -588,9 +611,17 @@ def rule_fresh_ctx(ctx, px, ts):
                 ctx.ob(R, t.rel, f"{bad_here} @ {j2front.construct_path(stack)}", False,
                        "template mutates a namespace shared by all files of the run", getattr(node, "lineno", None))
     ctx.ob(R, "src/nunavut/lang", "built-in templates: writes to shared namespaces", n == 0, f"{len(ts.templates)} templates scanned")
+    rule_context_free(ctx, px, ts, R)
+
+
+def rule_context_free(ctx, px, ts, R):
+    N = ts.nodes
     # a template that is imported without context is evaluated once per environment and its module is cached: what its top level
     # computes must not depend on anything that changes from call to call or file to file
     PER_CALL = {"nunavut", "T", "now_utc"}
+    COUNTERS = counter_filters(px)
+    if not COUNTERS:
+        raise AnalysisError("anchor missing: no template filter reaches UniqueNameGenerator")
     imported = {}
     for t in ts.templates:
         for node in t.ast.find_all((N.Import, N.FromImport)):
@@ -609,6 +640,10 @@ def rule_fresh_ctx(ctx, px, ts):
                 # inside a macro it is evaluated per call
                 names = {x.name for x in a.node.find_all(N.Name)} | ({a.node.name} if isinstance(a.node, N.Name) else set())
                 hit = sorted(names & PER_CALL)
+                # ... nor draw from the per-file name counters: the name would be allocated once, while the first file that imports the
+                # template is rendered, and be missing from the numbering of every later file
+                hit += sorted({f"| {x.name}" for x in [a.node] + list(a.node.find_all((N.Filter, N.Test))) if isinstance(x, (N.Filter, N.Test))
+                               and x.name.split(".")[-1] in COUNTERS})
                 k += 1
                 tgt = j2front.xs(a.target)
                 ctx.ob(R, t.rel, f"top-level `set {tgt}` of a template imported without context reads nothing that changes per call", not hit,
